@@ -85,6 +85,9 @@ func genCrashCase(t *rapid.T) lab.CrashCase {
 		c.Second = append(c.Second, lab.Rng(t, 0, 1000, "second"))
 	}
 	c.Upgrade = lab.Pct(t, 10, "pluginUpgrade")
+	if !c.Upgrade && lab.Pct(t, 12, "searchFault") {
+		c.SearchFault = lab.Rng(t, 1, 3, "searchFaultAfter")
+	}
 	// one case in three with second crashes goes on to a third crash in the second recovery
 	if ns > 0 && lab.Pct(t, 33, "third") {
 		c.Third = append(c.Third, lab.Rng(t, 0, 1000, "thirdPoint"))
@@ -109,6 +112,9 @@ func crashSpec(id string) vprop.Spec[lab.CrashCase] {
 			}
 			if c.Upgrade && id == "C09" {
 				res.Label("restart-with-upgraded-plugin-response-type")
+			}
+			if c.SearchFault > 0 && id == "C09" {
+				res.Label("restart-with-broken-search-stream")
 			}
 			if len(c.Sc.Plans) >= 3 {
 				res.Label("three-or-more-plans")
